@@ -24,12 +24,12 @@ import (
 
 var Engines = []string{"btree", "ldbmem", "ldbdisk"}
 
-// DiskTableBudget bounds how many on-disk tables one check process may open: the emulator never closes the leveldb
-// handle of a deleted (or re-created) table, so every such table costs a handful of file descriptors until the
-// process exits. DiskEngineAvailable reports whether another program may still use the disk engine.
+// DiskTableBudget used to bound how many on-disk tables one check process opened, because the emulator never closed
+// the storage of a deleted table (finding B23). Since that is repaired the budget is unlimited; the counters stay
+// as evidence of how many on-disk tables a run created.
 var diskTablesOpened int64
 
-const DiskTableBudget = 2500
+const DiskTableBudget = 1 << 60
 
 func NoteDiskTables(n int)      { atomic.AddInt64(&diskTablesOpened, int64(n)) }
 func DiskEngineAvailable() bool { return atomic.LoadInt64(&diskTablesOpened) < DiskTableBudget }
